@@ -203,6 +203,12 @@ def swapKids (a b : Nat) (ca cb : Forest) : Forest → Forest
     (if i = a then .node i n v cb else if i = b then .node i n v ca else .node i n v (swapKids a b ca cb cs))
       :: swapKids a b ca cb ts
 
+/-- the trees with root handles `a` and `b` (given as `ta`, `tb`) exchange their places -/
+def switchT (a b : Nat) (ta tb : Tree) : Forest → Forest
+  | [] => []
+  | (.node i n v cs) :: ts =>
+    (if i = a then tb else if i = b then ta else .node i n v (switchT a b ta tb cs)) :: switchT a b ta tb ts
+
 structure St where
   tops : List Forest := []
   next : Nat := 0
@@ -338,6 +344,16 @@ def swap (s : St) (a b : Nat) : Option St :=
     if a = b then some s
     else if (ids ta.children).contains b ∨ (ids tb.children).contains a then none
     else some { s with tops := s.tops.map (swapKids a b ta.children tb.children) }
+  | _, _ => none
+
+/-- `switch(a, b)`: the two nodes (with everything below them) exchange their places.  Requires that neither lies
+    below the other. -/
+def switch (s : St) (a b : Nat) : Option St :=
+  match s.find? a, s.find? b with
+  | some ta, some tb =>
+    if a = b then some s
+    else if (ids ta.children).contains b ∨ (ids tb.children).contains a then none
+    else some { s with tops := s.tops.map (switchT a b ta tb) }
   | _, _ => none
 
 /-- `relink(x)`: on a sound structure every link already has the value that is written -/
